@@ -29,6 +29,17 @@ def stepSpec (h : Posix.Holders) (line : String) : Posix.Holders × String :=
     | some k => (List.replicate k .unlocked, "ok")
     | none => (h, "bad-op")
   | ["state"] => (h, s!"{(Posix.state h).toString} | {showGs h}")
+  | [blk, i, rel, j] =>
+    if blk != "block-lock" && blk != "block-rlock" then (h, "bad-op") else
+    match i.toNat?, parseOp [rel, j] with
+    | some i, some relOp =>
+      if i ≥ h.length || relOp.owner ≥ h.length || i == relOp.owner then (h, "bad-op") else
+      let tryOp := if blk == "block-lock" then Op.tryLock i else Op.tryRLock i
+      if (Posix.specStep h tryOp).2 == .bool true then (h, "returned-before-release") else
+      let r := Posix.specStep h relOp
+      let t := Posix.specStep r.1 tryOp
+      (t.1, showRes r.2 ++ (if t.2 == .bool true then " acquired" else " ctx-ended"))
+    | _, _ => (h, "bad-op")
   | ws => match parseOp ws with
     | some op =>
       if op.owner ≥ h.length then (h, "bad-owner") else
